@@ -14,3 +14,7 @@ open GoSQLXModel
 #print axioms Props.C13.depth_restored_after_any_parse
 #print axioms Props.C13.depth_restored_after_any_history
 #print axioms Props.C13.inline_decrement_leaks
+#print axioms Props.C13.is_means_member_of_unwrap_chain
+#print axioms Props.C13.is_transitive
+#print axioms Props.C13.as_is_first_code_of_chain
+#print axioms Props.C13.code_seen_through_layers
